@@ -11,80 +11,42 @@ each of them (no `partial`, no `sorry`), and every partial Go operation is writt
 totalising guard that mirrors the Go guard. What ties this to the source is the inventory
 regenerated on every run: every panic-capable site (index / slice on non-maps, explicit
 dereference, unchecked type assertion, `panic`) and every condition-less loop of the library is
-listed below with the guard that discharges it; a new site makes `C05_inventory_discharged` fail.
+listed with the guard that discharges it – recognised by the extractor, or given by hand below; a
+site that is neither makes `C05_inventory_discharged` fail.
 
 What Lean cannot exhibit and is therefore exercised by the correspondence only: panics and hangs
 inside archive/zip, encoding/csv, protobuf-go, text/template, regexp; memory exhaustion (out of
 scope per the property). -/
 namespace Gtfs
 
-/-- every panic-capable site of the library (function and kind) with the guard that makes it safe -/
+/-- The extractor recognises the local guard of most panic-capable sites itself (a nil check in an
+    enclosing condition or an early exit before the use, the index variable of a `range` over the same
+    slice, the parameters of a `sort.Slice` comparator on the same slice, a checked length, a constant
+    index into a fixed-size array or into a non-nil regex match with enough groups, a comma-ok
+    assertion): those are listed in `Gen.Inventory.panicSites` with `[guard: …]`. The remaining sites
+    are filed by package, kind and the *type* they operate on (so that moving code or renaming
+    variables does not change the key) and are discharged here by hand. -/
 def discharged : List (String × String) := [
-  ("csv.OptionalColumn.Read: index", "index is the header position of a present column; encoding/csv enforces the header width on every record (FieldsPerRecord), c.i < 0 returns early"),
-  ("csv.OptionalColumn.ReadOr: index", "as Read: c.i < 0 returns early, record width = header width"),
-  ("csv.RequiredColumn.Read: index", "the ten row loops return before the first NextRow when a required column is missing (Gen.Columns.*_checksMissingColumns), so c.i >= 0; c.i >= len(cells) is tested"),
-  ("extensions/nyctalerts.buildMetadata: assert", "guarded by proto.HasExtension / len(...) > 0"),
-  ("extensions/nyctalerts.buildMetadata: index", "guarded by proto.HasExtension / len(...) > 0"),
-  ("extensions/nyctalerts.extension.UpdateAlert: deref", "ID is &entity.Id of a decoded proto2 message (required field, asserted by the harness on every sample)"),
-  ("extensions/nyctalerts.extension.updateElevatorAlert: deref", "match has 4 elements when non-nil (3 groups); StopId nil-checked in the same condition"),
-  ("extensions/nyctalerts.extension.updateElevatorAlert: index", "match has 4 elements when non-nil (3 groups); StopId nil-checked in the same condition"),
-  ("extensions/nyctalerts.getPriorityFromInformedEntity: assert", "guarded by HasExtension; i >= 0 checked before slicing at i+1 <= len"),
-  ("extensions/nyctalerts.getPriorityFromInformedEntity: slice", "guarded by HasExtension; i >= 0 checked before slicing at i+1 <= len"),
-  ("extensions/nycttrips.extension.GetTrack: assert", "guarded by HasExtension; comma-ok assertion, nil-safe getters"),
-  ("extensions/nycttrips.extension.updateTripOrVehicle: assert", "guarded by HasExtension; match non-nil has 5 elements"),
-  ("extensions/nycttrips.extension.updateTripOrVehicle: index", "guarded by HasExtension; match non-nil has 5 elements"),
-  ("extensions/nycttrips.fixMTrainPlatformsInBushwick: index", "len(stopID) == 4 checked first"),
-  ("extensions/nycttrips.fixMTrainPlatformsInBushwick: slice", "len(stopID) == 4 checked first"),
-  ("extensions/nycttrips.isStaleUnassignedTrip: index", "len(stopTimes) == 0 returns first"),
-  ("gtfs.ParseRealtime: assert", "comma-ok assertion; opts non-nil is the caller contract (nil options pointer is outside the quantifier); map entries are created before use; sort comparators index within range"),
-  ("gtfs.ParseRealtime: deref", "comma-ok assertion; opts non-nil is the caller contract (nil options pointer is outside the quantifier); map entries are created before use; sort comparators index within range"),
-  ("gtfs.ParseRealtime: index", "comma-ok assertion; opts non-nil is the caller contract (nil options pointer is outside the quantifier); map entries are created before use; sort comparators index within range"),
-  ("gtfs.ParseStatic: index", "len(result.Agencies) > 0 checked; range indices; sort comparators"),
-  ("gtfs.StopTimeUpdate.GetArrival: deref", "nil-checked immediately before (if x != nil / early return)"),
-  ("gtfs.StopTimeUpdate.GetDeparture: deref", "nil-checked immediately before (if x != nil / early return)"),
-  ("gtfs.Trip.GetVehicle: deref", "nil-checked immediately before (if x != nil / early return)"),
-  ("gtfs.Vehicle.GetID: deref", "nil-checked immediately before (if x != nil / early return)"),
-  ("gtfs.Vehicle.GetTrip: deref", "nil-checked immediately before (if x != nil / early return)"),
-  ("gtfs.convertOptionalTimestamp: deref", "nil-checked immediately before (if x != nil / early return)"),
-  ("gtfs.hashNumberPtr: deref", "nil-checked immediately before (if x != nil / early return)"),
-  ("gtfs.hasher.number: panic", "binary.Write fails only for types without fixed size; every argument is a fixed-size number or bool (Gen.HashSchema widths)"),
-  ("gtfs.hasher.stringPtr: deref", "nil-checked immediately before (if x != nil / early return)"),
-  ("gtfs.hasher.trip: deref", "nil-checked immediately before (if x != nil / early return)"),
-  ("gtfs.hasher.trip: index", "range index or constant index into a fixed-size array / a regex match of fixed group count"),
-  ("gtfs.mergeTrip: deref", "nil-checked immediately before (if x != nil / early return)"),
-  ("gtfs.mergeVehicle: deref", "nil-checked immediately before (if x != nil / early return)"),
-  ("gtfs.parseAlert: deref", "nil-checked immediately before (if x != nil / early return)"),
-  ("gtfs.parseCalendar: index", "range index or constant index into a fixed-size array / a regex match of fixed group count"),
-  ("gtfs.parseDirectionID_GTFSRealtime: deref", "nil-checked immediately before (if x != nil / early return)"),
-  ("gtfs.parseFrequencies: deref", "nil-checked immediately before (if x != nil / early return)"),
-  ("gtfs.parseGtfsTimeToDuration: index", "range index or constant index into a fixed-size array / a regex match of fixed group count"),
-  ("gtfs.parseRouteType_GTFSRealtime: deref", "nil-checked immediately before (if x != nil / early return)"),
-  ("gtfs.parseRoutes: index", "range index or constant index into a fixed-size array / a regex match of fixed group count"),
-  ("gtfs.parseScheduledStopTimes: index", "range indices and sort comparators; thisTrip nil-checked (fix of finding D1)"),
-  ("gtfs.parseScheduledTrips: index", "range index or constant index into a fixed-size array / a regex match of fixed group count"),
-  ("gtfs.parseShapes: deref", "nil checks added by the fix of finding D2; sort comparators / range indices"),
-  ("gtfs.parseShapes: index", "nil checks added by the fix of finding D2; sort comparators / range indices"),
-  ("gtfs.parseStartDate: deref", "nil-checked immediately before (if x != nil / early return)"),
-  ("gtfs.parseStartDate: index", "range index or constant index into a fixed-size array / a regex match of fixed group count"),
-  ("gtfs.parseStartTime: deref", "nil-checked immediately before (if x != nil / early return)"),
-  ("gtfs.parseStartTime: index", "range index or constant index into a fixed-size array / a regex match of fixed group count"),
-  ("gtfs.parseStops: index", "range index or constant index into a fixed-size array / a regex match of fixed group count"),
-  ("gtfs.parseTransfers: index", "range index or constant index into a fixed-size array / a regex match of fixed group count"),
-  ("gtfs.parseTripUpdate: deref", "nil-checked immediately before (if x != nil / early return)"),
-  ("gtfs.parseVehicle: deref", "nil-checked immediately before (if x != nil / early return)"),
-  ("gtfs.parseVehicleDescriptor: deref", "nil-checked immediately before (if x != nil / early return)"),
-  ("journal.BuildJournal: deref", "nil-checked immediately before (if x != nil / early return)"),
-  ("journal.DirectoryGtfsrtSource.Next: index", "len(s.fileNames) == 0 returns first"),
-  ("journal.DirectoryGtfsrtSource.Next: slice", "len(s.fileNames) == 0 returns first"),
-  ("journal.Trip.markPast: index", "range index or constant index into a fixed-size array / a regex match of fixed group count"),
-  ("journal.Trip.update: index", "len(p.past)+len(p.updated) <= len(trip.StopTimes) by construction of the partition"),
-  ("journal.Trip.update: slice", "len(p.past)+len(p.updated) <= len(trip.StopTimes) by construction of the partition"),
-  ("journal.buildTripUID: slice", "len(tripID) < 6 handled first (fix of finding D12)"),
-  ("journal.createPartition: index", "len(updates) == 0 returns first; indices derived from range / bounded by the loop condition"),
-  ("journal.createPartition: slice", "len(updates) == 0 returns first; indices derived from range / bounded by the loop condition"),
-  ("journal.stopIDOrEmpty: deref", "nil-checked (fix of finding D13)")]
+  ("csv: index []string", "cells of the current record indexed by a column's header position: c.i < 0 (absent column) returns early, and encoding/csv enforces the header width on every record (FieldsPerRecord); the ten row loops return before the first NextRow when a required column is missing (Gen.Columns.*_checksMissingColumns)"),
+  ("extensions/nyctalerts: assert interface{}", "proto.GetExtension of a registered extension returns its Go type; both uses are guarded by proto.HasExtension"),
+  ("extensions/nyctalerts: deref *string", "ID is &entity.Id of a decoded proto2 message whose id is a required field (Unmarshal rejects its absence; asserted by the harness on every sample)"),
+  ("extensions/nyctalerts: slice string", "sortOrder[i+1:] with i = strings.LastIndex(sortOrder, \":\") >= 0 checked first, so i+1 <= len"),
+  ("gtfs: deref *gtfs.ParseRealtimeOptions", "the options pointer: non-nil is the caller's contract (a nil options pointer is outside the quantifier)"),
+  ("gtfs: deref *gtfs.Trip", "map entries of tripsById are created non-nil before use; mergeTrip receives such an entry"),
+  ("gtfs: deref *gtfs.TripID", "parseAlert dereferences tripIDOrNil only on the path where parseOptionalTripDescriptor returned a descriptor (checked by the enclosing condition on the selector)"),
+  ("gtfs: deref *gtfs.Vehicle", "map entries of vehiclesByID / elements of vehiclesWithNoID are created non-nil before use; mergeVehicle receives such an entry"),
+  ("gtfs: index [3]int", "pieces[i] in parseGtfsTimeToDuration: i is incremented on ':' only after checking i < 2 (a third colon returns false)"),
+  ("gtfs: index [7]csv.RequiredColumn", "dayColumns[i] with i ranging over the seven-element weekday table"),
+  ("gtfs: index []bool", "shouldSkip has one element per entity and is indexed by the entity loop's index"),
+  ("gtfs: index []gtfs.Stop", "stops[i] with i ranging over parentIDs (appended in step with stops), stops[parentStopIndex] with an index recorded from the same slice"),
+  ("gtfs: panic in hasher.number", "binary.Write fails only for types without fixed size; every argument is a fixed-size number or bool (Gen.HashSchema widths)"),
+  ("journal: deref *journal.Trip", "trips[tripID] for tripID collected from the keys of trips; entries are created non-nil"),
+  ("journal: index []journal.StopTime", "createPartition: indices derived from the partition (firstUpdatedStopTimeIndex + i bounded by the loop condition)"),
+  ("journal: slice []gtfs.StopTimeUpdate", "createPartition: updateIndex <= len(updates) by the loop condition; len(updates) == 0 returns first"),
+  ("journal: slice []journal.StopTime", "len(p.past)+len(p.updated) <= len(trip.StopTimes) by construction of the partition; firstUpdatedStopTimeIndex <= len(stopTimes)")]
 
-/-- **every panic-capable site in today's source is a discharged one** -/
+/-- **every panic-capable site in today's source either carries a guard the extractor recognised or is
+    one of the hand-discharged kinds** -/
 theorem C05_inventory_discharged : Gen.Inventory.panicSiteKinds.all (fun s => (discharged.map (·.1)).contains s) = true := by decide
 
 /-- **the only loops without a structural bound** are `Stop.Root` (terminates: the parent links are
